@@ -32,6 +32,8 @@ def components(t: T, out: Optional[Set[T]] = None, vfg=None) -> Set[T]:
             components(v, out, vfg)
     elif t.kind == "update":
         components(t.args[2], out, vfg)
+    elif t.kind == "copy":
+        components(t.args[0], out, vfg)
     if t.kind == "batched":
         components(t.args[0], out, vfg)  # per-element view of a mapped result
     if vfg is not None and t.kind in ("choice", "phi", "batched", "elem", "loop"):
